@@ -139,6 +139,8 @@ class Execution:
             raise FieldError(oc[1], oc[2] if len(oc) > 2 else None)
         if oc[0] == "shared-error":
             raise FieldError(oc[1], None)
+        if oc[0] == "gen-error":
+            return GenFail(list(oc[1]))
         if oc[0] == "boom":
             raise Boom(oc[1])
         raise ValueError(oc)
@@ -178,7 +180,13 @@ class Execution:
         except FieldError as e:
             self.field_error(path, "resolver", e.message, node, e.extensions)
             return None
-        return self.complete(field_def.type, nodes, value, path)
+        try:
+            return self.complete(field_def.type, nodes, value, path)
+        except GenFailed:
+            # the list value failed with the resolver error while it was being consumed: a field error of THIS field (null + one error at its
+            # path); what was completed of the items before the failure stays done (their resolvers ran, their errors are recorded)
+            self.field_error(path, "resolver", "generator failed", node, None)
+            return None
 
     # -- 6.4.3 CompleteValue ---------------------------------------------------------------------
     def complete(self, t, nodes, value, path):
@@ -189,6 +197,10 @@ class Execution:
             return done                      # library semantics: no propagation
         if value is None:
             return None
+        if isinstance(t, ListType) and isinstance(value, GenFail):
+            for i, v in enumerate(value.items):
+                self.complete(t.type, nodes, v, path + (i,))
+            raise GenFailed()
         if isinstance(t, ListType):
             if isinstance(value, (str, dict)) or not hasattr(value, "__iter__"):
                 raise Boom("list field resolved to a non-iterable")
@@ -209,6 +221,17 @@ class Execution:
                 raise Boom("abstract type resolved to %r" % (name,))
         sels = [s for n in nodes if n.selection_set for s in n.selection_set.selections]
         return self.execute_selection_set(rt, value, sels, path)
+
+
+class GenFail:
+    """a list value that yields `items` and then fails with the library's resolver error"""
+
+    def __init__(self, items):
+        self.items = items
+
+
+class GenFailed(Exception):
+    pass
 
 
 INTROSPECTION = object()
